@@ -1,6 +1,6 @@
 From Coq Require Import ZArith NArith List Bool.
 From RecordUpdate Require Import RecordSet.
-From PSO Require Import Raft.Types Raft.Node Raft.Net Raft.Obs Raft.ProofsSnapshotBase Raft.ProofsSnapshot Raft.ProofsSnapshotChunks Raft.ProofsDisk Raft.ProofsProgress Raft.ProofsProgressBackoff Raft.ProofsProgressExamples.
+From PSO Require Import Raft.Types Raft.Node Raft.Net Raft.Obs Raft.ProofsSnapshotBase Raft.ProofsSnapshot Raft.ProofsSnapshotChunks Raft.ProofsDisk Raft.ProofsProgress Raft.ProofsProgressBackoff Raft.ProofsProgressExamples Raft.ProofsProgressBurst.
 Import ListNotations.
 Import RecordSetNotations.
 Open Scope N_scope.
@@ -119,3 +119,81 @@ Theorem C05_backoff_round_accept : forall (e : env) (lid fid : nid) (T : N) (L :
     exists m1, aget fid (match_idx (fst st)) = Some m1 /\ last_idx (C ++ firstn k restL) <= m1.
 Proof. exact round_accept. Qed.
 Print Assumptions C05_backoff_round_accept.
+
+Theorem C05_burst_converges : forall (e : env) (lid fid : nid) (T : N) (L : list entry),
+  dyn (cf e) = false -> 1 <= batch (cf e) -> no_big e L -> log_wf L ->
+  (0 <= period (cf e))%Z -> N.of_nat (length L) <= budget e ->
+  forall next preL C restL preF restF nl nf,
+  binv lid fid T L next preL C restL preF restF nl nf ->
+  exists k restF', (k <= N.to_nat (mu_full next C restL))%nat /\
+    forall j, (k <= j)%nat ->
+      let st := rounds_full j e lid fid (nl, nf) in
+      log (fst st) = L /\ log (snd st) = preF ++ (C ++ restL) ++ restF' /\
+      aget fid (next_idx (fst st)) = Some (last_idx L + 1) /\
+      exists m1, aget fid (match_idx (fst (round_full e lid fid st))) = Some m1 /\ last_idx L <= m1.
+Proof. exact burst_converges. Qed.
+Print Assumptions C05_burst_converges.
+
+Theorem C05_burst_measure_bound : forall (lid fid : nid) (T : N) (L : list entry),
+  forall next preL C restL preF restF nl nf,
+  binv lid fid T L next preL C restL preF restF nl nf ->
+  mu_full next C restL <= last_idx L - last_idx C + 1.
+Proof. exact mu_full_bound. Qed.
+Print Assumptions C05_burst_measure_bound.
+
+Theorem C05_burst_round_missing : forall (e : env) (lid fid : nid) (T : N) (L : list entry),
+  dyn (cf e) = false -> 1 <= batch (cf e) -> no_big e L -> log_wf L ->
+  (0 <= period (cf e))%Z -> N.of_nat (length L) <= budget e ->
+  forall next preL C restL preF restF nl nf,
+  binv lid fid T L next preL C restL preF restF nl nf ->
+  last_idx (log nf) < next - 1 ->
+  let st := round_full e lid fid (nl, nf) in
+  binv lid fid T L (last_idx (log nf) + 1) preL C restL preF restF (fst st) (snd st) /\ log (snd st) = log nf.
+Proof. exact round_full_missing. Qed.
+Print Assumptions C05_burst_round_missing.
+
+Theorem C05_burst_round_mismatch : forall (e : env) (lid fid : nid) (T : N) (L : list entry),
+  dyn (cf e) = false -> 1 <= batch (cf e) -> no_big e L -> log_wf L ->
+  (0 <= period (cf e))%Z -> N.of_nat (length L) <= budget e ->
+  forall next preL C restL preF restF nl nf,
+  binv lid fid T L next preL C restL preF restF nl nf ->
+  last_idx C < next - 1 -> next - 1 <= last_idx (log nf) ->
+  let st := round_full e lid fid (nl, nf) in
+  binv lid fid T L (next - 1) preL C restL preF restF (fst st) (snd st) /\ log (snd st) = log nf.
+Proof. exact round_full_mismatch. Qed.
+Print Assumptions C05_burst_round_mismatch.
+
+Theorem C05_burst_round_accept : forall (e : env) (lid fid : nid) (T : N) (L : list entry),
+  dyn (cf e) = false -> 1 <= batch (cf e) -> no_big e L -> log_wf L ->
+  (0 <= period (cf e))%Z -> N.of_nat (length L) <= budget e ->
+  forall preL C restL preF restF nl nf,
+  binv lid fid T L (last_idx C + 1) preL C restL preF restF nl nf ->
+  let st := round_full e lid fid (nl, nf) in
+  binv lid fid T L (last_idx L + 1) preL (C ++ restL) [] preF (match restL with [] => restF | _ => [] end)
+       (fst st) (snd st) /\
+  exists m1, aget fid (match_idx (fst st)) = Some m1 /\ last_idx L <= m1.
+Proof. exact round_full_accept. Qed.
+Print Assumptions C05_burst_round_accept.
+
+Theorem C05_burst_is_send_ae : forall (e : env) (x : nid) (n : node),
+  targets e n = [x] -> smem x (connected n) = true -> send_ae e (start_S e n) = burst e x n.
+Proof. exact send_ae_single. Qed.
+Print Assumptions C05_burst_is_send_ae.
+
+Theorem C05_burst_old_rule_livelock :
+  aget 2 (next_idx nlb) = Some 5 /\
+  aget 2 (next_idx (fst (round_full_old eb 1 2 (nlb, nfb)))) = Some 5 /\
+  log (snd (round_full_old eb 1 2 (nlb, nfb))) = Fb /\
+  round_full_old eb 1 2 (round_full_old eb 1 2 (nlb, nfb)) = round_full_old eb 1 2 (nlb, nfb) /\
+  aget 2 (next_idx (fst (round_full eb 1 2 (nlb, nfb)))) = Some 4 /\
+  log (snd (rounds_full 2 eb 1 2 (nlb, nfb))) = Lb /\
+  aget 2 (next_idx (fst (rounds_full 2 eb 1 2 (nlb, nfb)))) = Some 10 /\
+  aget 2 (match_idx (fst (rounds_full 2 eb 1 2 (nlb, nfb)))) = Some 9.
+Proof. exact burst_old_rule_livelock. Qed.
+Print Assumptions C05_burst_old_rule_livelock.
+
+Theorem C05_burst_old_rule_livelock_forever : forall k,
+  aget 2 (next_idx (fst (rounds_full_old k eb 1 2 (nlb, nfb)))) = Some 5 /\
+  log (snd (rounds_full_old k eb 1 2 (nlb, nfb))) = Fb.
+Proof. exact burst_old_rule_livelock_forever. Qed.
+Print Assumptions C05_burst_old_rule_livelock_forever.
